@@ -118,6 +118,20 @@ use std::fmt::Display;
 pub use num_complex;
 pub use num_traits;
 
+#[cfg(rustfft_verif)]
+#[doc(hidden)]
+pub mod verif_hooks;
+
+// Verification hook H3: shadow std's feature-detection macro (textual macro scope wins over the prelude)
+// so that a harness can mask detected CPU features. With the default mask this is exactly std's answer.
+#[cfg(all(rustfft_verif, target_arch = "x86_64"))]
+#[allow(unused_macros)]
+macro_rules! is_x86_feature_detected {
+    ($feat:tt) => {
+        (std::arch::is_x86_feature_detected!($feat) && crate::verif_hooks::feature_allowed($feat))
+    };
+}
+
 #[macro_use]
 mod common;
 
